@@ -435,6 +435,67 @@ theorem tinact_holds_model (n honest cur nsigs nonce cn : Nat) (w : Wait) :
       intro idx _
       simp [tinactMember, hsig, hn]
 
+/-! ## tBTC DKG result approval, driven through `executeDkgValidation` -/
+
+theorem insertNat_perm (a : Nat) (l : List Nat) : (insertNat a l).Perm (a :: l) := by
+  induction l with
+  | nil => exact List.Perm.refl _
+  | cons b rest ih =>
+    unfold insertNat
+    split
+    · exact List.Perm.refl _
+    · exact (List.Perm.cons b ih).trans (List.Perm.swap a b rest)
+
+theorem sortNat_perm (l : List Nat) : (sortNat l).Perm l := by
+  induction l with
+  | nil => exact List.Perm.refl _
+  | cons a rest ih =>
+    show (insertNat a (sortNat rest)).Perm (a :: rest)
+    exact (insertNat_perm a _).trans (List.Perm.cons a ih)
+
+/-- the approval blocks of the seats one operator controls are pairwise distinct
+    (non-empty precedence period), for every seat set, submitter and period lengths -/
+theorem appr_awaits_nodup (submitter p prec : Nat) (seats : List Nat) (hprec : 0 < prec)
+    (hs : ∀ s ∈ seats, 1 ≤ s) (hnd : seats.Nodup) :
+    (apprAwaits submitter p prec seats).Nodup := by
+  unfold apprAwaits
+  rw [(sortNat_perm _).nodup_iff, List.Nodup, List.pairwise_map]
+  refine List.Pairwise.imp_of_mem ?_ hnd
+  intro a b ha hb hab h
+  exact hab (approval_slots_injective hprec (hs a ha) (hs b hb) h)
+
+/-- monitor soundness for the approval scheduling: every run of the model is accepted. -/
+theorem appr_holds_model (submitter sub chal prec : Nat) (seats : List Nat) (tie : List Kind)
+    (ev : Option Nat) (hprec : 0 < prec) (hs : ∀ s ∈ seats, 1 ≤ s) (hnd : seats.Nodup) :
+    holdsAppr (precedenceStart sub chal) prec seats.length tie ev
+      (apprAwaits submitter (precedenceStart sub chal) prec seats)
+      (apprApprovals tie ev (apprAwaits submitter (precedenceStart sub chal) prec seats)) = true := by
+  have hnodup := appr_awaits_nodup submitter (precedenceStart sub chal) prec seats hprec hs hnd
+  have hperm := sortNat_perm (seats.map (approvalBlock submitter (precedenceStart sub chal) prec))
+  unfold holdsAppr
+  simp only [Bool.and_eq_true, decide_eq_true_eq, List.all_eq_true, Bool.or_eq_true]
+  refine ⟨⟨⟨⟨hnodup, ?_⟩, ?_⟩, ?_⟩, ?_⟩
+  · unfold apprAwaits; rw [hperm.length_eq, List.length_map]
+  · intro w hw
+    unfold apprAwaits at hw
+    obtain ⟨s, -, rfl⟩ := List.mem_map.1 (hperm.mem_iff.1 hw)
+    unfold approvalBlock
+    split
+    · exact Or.inl rfl
+    · exact Or.inr (by omega)
+  · exact hnodup.sublist (List.filter_sublist)
+  · intro a ha
+    unfold apprApprovals at ha
+    obtain ⟨h1, h2⟩ := List.mem_filter.1 ha
+    simp [h1]
+    simpa using h2
+
+example : apprAwaits 2 100 20 [3, 1, 2] = [100, 120, 150] := by decide
+example : holdsAppr 100 20 3 [.slot, .event] (some 120) [100, 120, 150] [100, 120] = true := by decide
+/-- rejected: approval after someone else's approval was observed; two seats on one block -/
+example : holdsAppr 100 20 3 [.slot, .event] (some 110) [100, 120, 150] [100, 120] = false := by decide
+example : holdsAppr 100 20 2 [.slot, .event] none [100, 100] [100] = false := by decide
+
 /-! ## Non-vacuity / monitor examples -/
 
 example : (relayGroup 3 3 9 100 none [.slot, .event, .timeout] false (some true)).map (·.await)
